@@ -200,9 +200,24 @@ def run_real(case, snapshot=True):
 
 
 def snapshot_sym(a, case, seen_times):
-    """Contents of both dictionaries with the real digests renamed to the symbolic values of the model."""
+    """Contents of both dictionaries with the real digests renamed to the symbolic values of the model.  When the private
+    layout of the caches is not the one the model was written from (other attribute names, other entry shapes), nothing
+    can be renamed: every entry is reported as unknown ("?", never equal to what the model stores), so the correspondence
+    reports the difference and the monitors -- which only look at login()'s answers and the back-end calls -- still run
+    and search for a concrete failing history."""
     if not hasattr(a, "_cache_successful"):
         return [], []
+    try:
+        succ, failed = _snapshot_sym(a, case, seen_times)
+        if all(isinstance(t, int) and isinstance(l, str) for l, _, t in succ) and \
+                all(isinstance(t, int) and isinstance(l, str) for _, t, l in failed):
+            return succ, failed
+    except Exception:  # noqa: BLE001
+        pass
+    return ([("", ("?",), T0) for _ in a._cache_successful], [(("?",), T0, "") for _ in getattr(a, "_cache_failed", ())])
+
+
+def _snapshot_sym(a, case, seen_times):
     logins, pws = set(), set()
     for ev in case["events"]:
         if ev[0] in ("A", "F"):
